@@ -401,7 +401,7 @@ func runC18(c *Ctx) {
 	for i := 0; i < n; i++ {
 		terms = append(terms, randomTerm(c, 3, rpool))
 	}
-	c.Rep.Rule = "filter terms: every atom (Null, All, NSName full/partial/mixed, Labels, LabelSelector with In/NotIn/Exists/DoesNotExist/matchLabels, FN), all depth-1 combinations (Not, And, Or of <=2 children) over every atom, all depth-2 combinations over a 6-atom family, seeded-random depth-3 terms (also over typed atoms); objects: 3 namespaces x 3 names x all label maps over 2 keys x 3 values, plus services, events, nodes, secrets. Plus 240 (6000) random atoms (id lists with duplicates, wildcards and double-empty entries; label maps nil / empty / with empty values; selectors with up to three requirements, several on one key) and Not/And/Or of them over 150 random objects of all kinds (empty namespaces, unscheduled pods, kind-less involved objects). Each term's Accept is evaluated on every object by the real filter and by the extracted model. Non-trivial = term that accepts some but not all objects; distinct by encoded term."
+	c.Rep.Rule = "filter terms: every atom (Null, All, NSName full/partial/mixed, Labels, LabelSelector with In/NotIn/Exists/DoesNotExist/matchLabels, FN), all depth-1 combinations (Not, And, Or of <=2 children) over every atom, all depth-2 combinations over a 6-atom family, seeded-random depth-3 terms (also over typed atoms); objects: 3 namespaces x 3 names x all label maps over 2 keys x 3 values, plus services, events, nodes, secrets. Plus 240 (6000) random atoms (id lists with duplicates, wildcards and double-empty entries; label maps nil / empty / with empty values; selectors with up to three requirements, several on one key) and Not/And/Or of them over 150 random objects of all kinds (empty namespaces, unscheduled pods, kind-less involved objects). Each term's Accept is evaluated on every object by the real filter and by the extracted model. Non-trivial = term that accepts some but not all objects; distinct by encoded term. Names include five that are not two letters wide: prefixes of one another, one continuing with '-', and two (namespace, name) pairs that concatenate to the same string. NSName atoms over them and with six / eight wildcard entries."
 	c.Sample(map[string]interface{}{"filter": terms[len(terms)-1].Enc().String(), "object": objs[17].Enc().String()})
 	c.Sample(map[string]interface{}{"filter": terms[200].Enc().String(), "object": objs[3].Enc().String()})
 	acceptMatrix(c, terms, objs)
@@ -758,7 +758,7 @@ func runC17(c *Ctx) {
 	acceptMatrix(c, terms, objs)
 	c.Rep.Stats["terms"] = len(terms)
 	c.Rep.Stats["equal_pairs"] = equalPairs
-	c.Rep.Rule = "filter terms over every constructor (Null, All, Not, And, Or, NSName, Labels, LabelSelector, FN, NodeFilter, InvolvedFilter, SelectorMatchFilter, service/rc/workload PodsFilter with permuted sources, ingress ServicesFilter), each built twice, plus per constructor a pool of 60 random filters over tiny ranges (x12 in the thorough tier) filling one diagonal block each; FiltersEqual(left_i, right_j) on diagonal blocks and a seeded off-diagonal sample vs the model's filters_equal; for every pair the implementation reports equal, Accept agreement over the whole object universe (which includes label values containing the separators ',' and '=' of a printed selector). Non-trivial = pair reported equal; distinct by index pair."
+	c.Rep.Rule = "filter terms over every constructor (Null, All, Not, And, Or, NSName, Labels, LabelSelector, FN, NodeFilter, InvolvedFilter, SelectorMatchFilter, service/rc/workload PodsFilter with permuted sources, ingress ServicesFilter), each built twice, plus per constructor a pool of 60 random filters over tiny ranges (x12 in the thorough tier) filling one diagonal block each; FiltersEqual(left_i, right_j) on diagonal blocks and a seeded off-diagonal sample vs the model's filters_equal; for every pair the implementation reports equal, Accept agreement over the whole object universe (which includes label values containing the separators ',' and '=' of a printed selector). Non-trivial = pair reported equal; distinct by index pair. Names include five that are not two letters wide: prefixes of one another, one continuing with '-', and two (namespace, name) pairs that concatenate to the same string. Workload sources with coinciding namespace+name in every order; the left copy of every term has been used for Accept when it is compared with the fresh right copy."
 	c.Sample(map[string]interface{}{"left": encs[3].String(), "right": encs[3].String(), "equal": goEqual(left[3], right[3])})
 }
 
@@ -1006,7 +1006,7 @@ func runC19(c *Ctx) {
 			typed = append(typed, f)
 		}
 	}
-	c.Rep.Rule = "sets of <=2 (quick) / <=3 (thorough) workloads over 2 namespaces, selectors from {nil->template labels, empty, one label, two labels, In, NotIn, Exists}, for replicaset/deployment/daemonset/statefulset/job/service/replicationcontroller PodsFilter x all pods over 2 namespaces x all label maps; ingress ServicesFilter over sets of ingresses (default backend, rule paths, empty names) x services of 3 namespaces; Node/Involved/SelectorMatch filters x pods, services, events, nodes, secrets. Plus 280 (7000) random typed filters (sets of up to three random services / replication controllers / workloads / ingresses with random selectors, templates, namespaces incl. none, backends; node, involved-object, selector-match filters with empty arguments) over 160 random objects. Real Accept vs extracted model and vs the ownership predicate written directly. Non-trivial = filter accepting some but not all candidates."
+	c.Rep.Rule = "sets of <=2 (quick) / <=3 (thorough) workloads over 2 namespaces, selectors from {nil->template labels, empty, one label, two labels, In, NotIn, Exists}, for replicaset/deployment/daemonset/statefulset/job/service/replicationcontroller PodsFilter x all pods over 2 namespaces x all label maps; ingress ServicesFilter over sets of ingresses (default backend, rule paths, empty names) x services of 3 namespaces; Node/Involved/SelectorMatch filters x pods, services, events, nodes, secrets. Plus 280 (7000) random typed filters (sets of up to three random services / replication controllers / workloads / ingresses with random selectors, templates, namespaces incl. none, backends; node, involved-object, selector-match filters with empty arguments) over 160 random objects. Real Accept vs extracted model and vs the ownership predicate written directly. Non-trivial = filter accepting some but not all candidates. Ingresses and services in namespaces that are prefixes of one another / continue with '-'."
 	c.Sample(map[string]interface{}{"filter": terms[len(terms)/2].Enc().String(), "pod": pods[5].Enc().String()})
 	acceptMatrix(c, terms, pods)
 	acceptMatrix(c, iterms, svcs)
